@@ -81,6 +81,8 @@ func t3Body(s HarnessSpec) (func(x *gosym.Exec), error) {
 		return gosym.T3EncBufferBounds(p, s.T3Native), nil
 	case "b64cap":
 		return gosym.T3Base64Cap(p), nil
+	case "encdepth":
+		return gosym.T3EncDepthRule(p), nil
 	case "enctoodeep":
 		return gosym.T3EncTooDeepError(p), nil
 	case "genblank":
